@@ -201,6 +201,7 @@ async fn echo_raw(
     let args = json!({
         "path": {"s": path.into_inner().s},
         "body": hex(body.as_bytes()),
+        "text": body.as_str().ok(),
     });
     let r = respond(nonce, args, ctx_json(&rqctx));
     g.finish();
